@@ -8,7 +8,7 @@ Finding classes:
 import subprocess
 import os
 from sexp import show, parse
-from gen import Gen, kind, is_basic, is_fixed, UINT_W, StoreGen, nested_ty, positions
+from gen import Gen, kind, is_basic, is_fixed, UINT_W, StoreGen, nested_ty, positions, _get_depth
 
 HERE = os.path.dirname(os.path.abspath(__file__))
 DRV = os.path.join(os.path.dirname(HERE), 'lean', '.lake', 'build', 'bin', 'rmkdrv')
@@ -97,7 +97,11 @@ class Prop:
     def tv(self, g, tier, mutable=False):
         d = g.rng.choice([1, 2, 2, 3] if tier == 'quick' else [1, 2, 3, 3, 4])
         t = g.mutable_ty(d) if mutable else g.ty(d, composite_only=g.rng.random() < 0.85)
-        v = g.val(t)
+        v = None
+        if not mutable and g.rng.random() < 0.12:
+            v = g.max_val(t)          # everything full: the longest valid encoding
+        if v is None:
+            v = g.val(t)
         return t, v
 
     def note_tv(self, stats, t, v):
@@ -136,8 +140,8 @@ class C01(ValProp):
     def generate(self, g, tier, focus=None):
         out = ValProp.generate(self, g, tier)
         n = self.n(tier)
-        for _ in range(n // 6):
-            t = g.ty(g.rng.choice([1, 2, 3]), composite_only=True)
+        for _ in range(n // 3):
+            t = g.ty(g.rng.choice([1, 2, 3]), composite_only=g.rng.random() < 0.9)
             out.append(show(['type', t]))
         for _ in range(n // 6):
             t = g.mutable_ty(2)
@@ -234,6 +238,9 @@ class C03(ValProp):
         exps = '%s/%s/1' % (mo['s.root'], mo['s.len'])
         if py.get('p.decs') != exps:
             out.append(F('prop', 'deserialize(stream, scope)', py.get('p.decs'), exps))
+        exp2 = '%s/%s' % (mo['s.root'], mo['s.root'])
+        if py.get('p.dec2') != exp2:
+            out.append(F('prop', 'decoding the same bytes again after mutating an earlier result', py.get('p.dec2'), exp2))
         if mo['i.dec'] != v + '/0':
             out.append(F('model', 'i.dec', mo['i.dec'], v + '/0'))
         return out
@@ -292,8 +299,19 @@ class C04(HistProp):
     quick_n = 150
     thorough_n = 2500
 
+    def compare(self, case, py, mo, stats):
+        if case[0] == 'store':
+            bump(stats, 'kinds', 'store:' + kind(case[1]))
+            return StoreProp.compare_store(self, case, py, mo, stats, 'views')
+        return self.compare_hist(case, py, mo, stats)
+
     def generate(self, g, tier, focus=None):
         out = HistProp.generate(self, g, tier)
+        # mutations made while other views of the same value are held (child views, copies)
+        for _ in range(self.n(tier) // 3):
+            t = nested_ty(g, g.rng.choice([1, 2, 2]))
+            v = g.val(t, 12)
+            out.append(show(['store', t, v] + StoreGen(g, t, v).history(g.rng.choice([6, 15, 30]))))
         if tier == 'thorough':
             # exhaustive: every op sequence of length <= 5 over a small alphabet, on small lists / bitlists
             import itertools
@@ -311,7 +329,7 @@ class C04(HistProp):
             'directions) on values of mutable types; after EVERY op: ok/err, root, encoding, indexed read, read-only '
             'iteration against the Spec value; non-trivial = at least 2 ops; distinct = distinct case lines')
 
-    def compare(self, case, py, mo, stats):
+    def compare_hist(self, case, py, mo, stats):
         out = []
         bump(stats, 'kinds', kind(case[1]))
         if py.get('p.ctor') == 'err':
@@ -428,7 +446,7 @@ class DecProp(Prop):
         # encodings come from the model's Spec.serialize of generated values (one batch query)
         tvs = []
         for _ in range(n // 6 + 1):
-            t = g.ty(r.choice([1, 2, 2, 3]), composite_only=r.random() < 0.9)
+            t = g.ty(r.choice([1, 2, 2, 3]), composite_only=r.random() < 0.85)
             v = g.val(t, 20)
             tvs.append((t, v))
         p = subprocess.run([DRV], input='\n'.join(show(['val', t, v]) for t, v in tvs) + '\n',
@@ -440,9 +458,9 @@ class DecProp(Prop):
         for (t, v), enc in zip(tvs, encs):
             out.append(show(['dec', t, 'x', 'x' + enc.hex(), 'x']))
             for _ in range(4):
-                b = g.corrupt(enc)
+                b = g.corrupt(enc, t)
                 if r.random() < 0.3:
-                    b = g.corrupt(b)
+                    b = g.corrupt(b, t)
                 if len(b) > 5000:
                     continue
                 if r.random() < 0.25:
@@ -524,6 +542,13 @@ class C09(DecProp):
     def compare(self, case, py, mo, stats):
         out = []
         ok = self.common(case, py, mo, stats)
+        # decode_bytes (for the bare integer types: the lenient bytes-to-integer helper): whatever it
+        # returns must satisfy the invariants of the type
+        db = py.get('p.decb')
+        if db not in (None, 'err') and db != py.get('p.dec'):
+            q = model_query(show(['val', case[1], parse(db)]))
+            if q.get('wt') != '1':
+                out.append(F('prop', 'decode_bytes returned a value that violates its type invariants', db, 'wt=' + str(q.get('wt'))))
         if not ok:
             if py.get('p.dec') == 'err' and 'p.consumed' in py:
                 out.append(F('prop', 'decoded value is not readable', py.get('p.dec'), ''))
@@ -718,6 +743,11 @@ class C13(Prop):
                 out.append(show(['uinv', w, a]))
             if r.random() < 0.1:
                 out.append(show(['uctor', w, r.choice([-1, 0, (1 << (8 * w)) - 1, 1 << (8 * w), a])]))
+            if r.random() < 0.1:
+                # construction from a uint of another width: the value must still be range-checked
+                sw = r.choice([x for x in W if x != w])
+                sv = r.choice([0, 1, (1 << (8 * min(w, sw))) - 1, min((1 << (8 * w)), (1 << (8 * sw)) - 1), self.operand_val(g, sw)])
+                out.append(show(['uctorw', w, sw, sv]))
         if tier == 'thorough':
             # exhaustive for width 8: every operand pair for the coercing operators (uint8 x uint8 and
             # uint8 x plain int), every shift amount 0..9, every exponent 0..8
@@ -830,6 +860,8 @@ class C15(ValProp):
                 out.append(F('prop', 'len()', py.get('p.len'), str(val_size(case[2]))))
         if py.get('p.eq') != '111':
             out.append(F('prop', '==, !=, hash of equal values', py.get('p.eq'), '111'))
+        if 'p.slices' in py and set(py['p.slices']) - {'1'}:
+            out.append(F('prop', 'in-range slices [0:0],[0:n],[0:1],[n:n],[n/2:n],[0:n/2],[1:n-1] disagree with indexing', py['p.slices'], 'all 1'))
         if mo['i.read'] != v:
             out.append(F('model', 'i.read', mo['i.read'], v))
         if mo.get('i.iter') != v:
@@ -887,6 +919,16 @@ class C07(Prop):
                     cmds.append(['set', gi, r.choice([0, 1, 1]), g.tree(r.choice([0, 0, 1, 2]), 0.5)] + probes)
                 else:
                     cmds.append(['summ', gi])
+            if r.random() < 0.3:
+                # the same operations on ONE lazily loaded tree object, in sequence (failed reads first)
+                seq = []
+                for _ in range(r.choice([2, 4, 6])):
+                    gi = r.choice([1, r.randint(1, maxg), r.randint(1, maxg)])
+                    if r.random() < 0.5:
+                        seq.append(['get', gi])
+                    else:
+                        seq.append(['set', gi, r.choice([0, 1, 1]), g.tree(r.choice([0, 0, 1]), 0.5)])
+                cmds.append(['vseq'] + seq)
             out.append(show(['tree', tr] + cmds))
         if tier == 'thorough':
             # small exhaustive: all gindices up to depth+2 for trees of depth <= 3
@@ -939,6 +981,10 @@ class C07(Prop):
                 a, b = py.get(p + 'summ'), mo.get(p + 'summ')
                 if (b == 'err') != (a is None or a.startswith('err')) or (b != 'err' and a != b):
                     out.append(F('prop', 'summarize_into(%s)' % c[1], a, b))
+            elif c[0] == 'vseq':
+                a, b = py.get(p + 'vseq'), mo.get(p + 'vseq')
+                if a != b:
+                    out.append(F('prop', 'lazily loaded tree: sequence of reads / writes on one tree object', a, b))
         return out
 
 
@@ -1281,7 +1327,7 @@ class C19(HistProp):
                 break
             tgt = mo.get(p + 'tgt')
             fresh = [int(x) for x in (py.get(p + 'pshare') or '').split(',') if x.strip().isdigit()]
-            if tgt not in (None, 'err'):
+            if tgt not in (None, 'err', '-'):
                 tb = bin(int(tgt))[2:]
                 bad = [gi for gi in fresh if not (tb.startswith(bin(gi)[2:]) or bin(gi)[2:].startswith(tb))]
                 if bad:
@@ -1332,6 +1378,20 @@ class C17(Prop):
                 ops.append(o)
             ops.append(r.choice([['read'], ['bytes'], ['root']]))
             out.append(show(['partial', t, v, pos] + ops))
+            # filling excluded data back in: the summarised child is assigned its own complete value
+            k = kind(t)
+            if k in ('cont', 'vec', 'list') and len(v) > 1:
+                idx = [i for i in range(len(v) - 1) if not is_basic(t[1 + i] if k == 'cont' else t[1])]
+                if idx:
+                    i = r.choice(idx)
+                    if k == 'cont':
+                        gi = (1 << _get_depth(len(t) - 1)) | i
+                    elif k == 'vec':
+                        gi = (1 << _get_depth(t[2])) | i
+                    else:
+                        gi = (2 << _get_depth(t[2])) | i
+                    ops2 = [['elem', i], ['set', i, v[1 + i]], ['elem', i], ['read'], ['bytes'], ['root']]
+                    out.append(show(['partial', t, v, ['pos', gi]] + ops2))
         return out
 
     def nontrivial(self, c):
@@ -1365,7 +1425,7 @@ class C17(Prop):
                 if not (c or '').startswith('err'):
                     out.append(F('prop', 'access to a partial tree failed with another error: op %d %s' % (i, show(op)), a, 'err:nav|err:index'))
                     break
-            if not a.startswith('ok') and (c or '').startswith('ok') and op[0] in ('set', 'app', 'pop', 'chg'):
+            if not a.startswith('ok') and (c or '').startswith('ok') and op[0] in ('set', 'app', 'pop', 'chg', 'cpy', 'sets'):
                 diverged = True   # the complete view moved on; later results are compared with the model only
             # correspondence with the model (which is proved to fail only where an excluded subtree is needed)
             am = a if a.startswith('ok') else 'err'
@@ -1414,6 +1474,11 @@ class C20(Prop):
                     cmds.append(['vget', gi])
                 else:
                     cmds.append(['vset', gi, r.choice([0, 1]), g.tree(r.choice([0, 0, 1, 2]), 0.5), gi, max(gi >> 1, 1), gi * 2, r.randint(1, maxg)])
+            seq = []
+            for _ in range(r.choice([2, 4, 6])):
+                gi = r.choice([1, r.randint(1, maxg), r.randint(1, maxg)])
+                seq.append(['get', gi] if r.random() < 0.5 else ['set', gi, r.choice([0, 1, 1]), g.tree(r.choice([0, 0, 1]), 0.5)])
+            cmds.append(['vseq'] + seq)
             out.append(show(['tree', tr] + cmds))
         return out
 
@@ -1426,7 +1491,7 @@ class C20(Prop):
             for i, c in enumerate(case[2:]):
                 p = '%d.' % i
                 bump(stats, 'ops', c[0])
-                for key in ('vget', 'vset', 'vprobes'):
+                for key in ('vget', 'vset', 'vprobes', 'vseq'):
                     a, b = py.get(p + key), mo.get(p + key)
                     if a is None and b is None:
                         continue
